@@ -249,12 +249,12 @@ func (la *lockAnalysis) solve(fns []*ssa.Function) {
 }
 
 type sharedAccess struct {
-	fn     *ssa.Function
-	in     ssa.Instruction
-	owner  string
-	path   string
-	write  bool
-	what   string
+	fn    *ssa.Function
+	in    ssa.Instruction
+	owner string
+	path  string
+	write bool
+	what  string
 }
 
 func checkC02(w *World, r *Report) {
@@ -506,4 +506,3 @@ func derivesFromEngineField(v ssa.Value, seen map[ssa.Value]bool, depth int) str
 	}
 	return ""
 }
-
